@@ -23,13 +23,13 @@ def gen_c09(tier, rng):
                     out.append("\t".join(["mt", "turn", sink, str(sa), str(sb), park, str(rep), "asan"]))
         for n in (2, 4, 8):
             for r in ((20, 120, 250) if big else (20, 120)):
-                for mode in ((2, 5, 6, 7) if big else (6, 7)):
+                for mode in ((2, 5, 6, 7, 8) if big else (6, 7, 8)):
                     for k in range(4 if big else 1):
-                        out.append("\t".join(["mt", "stress", sink, str(n), str(r), str(mode), str(rng.below(10 ** 6)), "asan"]))
+                        out.append("\t".join(["mt", "stress", sink, str(n), str(min(r, 120) if mode == 8 else r), str(mode), str(rng.below(10 ** 6)), "asan"]))
         for n in ((2, 4, 8) if big else (4,)):
             for r in ((100, 250) if big else (60,)):
-                for mode in (6, 7):
-                    out.append("\t".join(["mt", "stress", sink, str(n), str(r), str(mode), str(rng.below(10 ** 6)), "tsan"]))
+                for mode in (6, 7, 8):
+                    out.append("\t".join(["mt", "stress", sink, str(n), str(min(r, 120) if mode == 8 else r), str(mode), str(rng.below(10 ** 6)), "tsan"]))
     return out
 
 
@@ -46,7 +46,9 @@ C09 = Prop(
          "of A, fatal/fatal) and stress runs with N in {2,4,8} threads x 20/120 records of varying length and mixed "
          "severities (thorough: up to 250, more seeds, more mixes) with yields, byte-exact reassembly of the device "
          "contents; ThreadSanitizer builds. The model side runs the *extracted* per-severity sink bodies under seeded "
-         "pseudo-random schedules. Non-trivial: at least 2 threads. Distinct = distinct case line.",
+         "pseudo-random schedules. Severity mode 8: every statement's operand is a callable that logs a record of its own "
+         "(nested statements on one thread: two records per statement). Non-trivial: at least 2 threads. Distinct = "
+         "distinct case line.",
     harness=HARNESS, extract=c09_extract,
     search=lambda dis, rng: gen_c09("thorough", rng),
     theorem_hint="NitroVerif.Props.C09.{runs_inv,mutex,atomic,complete,extracted_sinks_are_good,stdout_mt_safe,stderr_mt_safe,*_counterexample}",
